@@ -52,7 +52,7 @@ pub fn replay(cases: &str, verdicts: &str) {
         // homogeneity (Inv_SolveHomogeneous): (s A) X' = t B has X' = (t / s) X; powers of two keep the oracle exact.
         // A tiny or huge matrix, a tiny right-hand side: no absolute threshold may enter
         if v.cases % 3 == 0 {
-            for (sa, sb) in [(-110i32, 0i32), (0, -60), (60, -60), (90, 200)] {
+            for (sa, sb) in [(-110i32, 0i32), (0, -60), (60, -60), (90, 200), (-600, -600), (520, 520)] {
                 let (fa, fb) = (2f64.powi(sa), 2f64.powi(sb));
                 let a2: Vec<f64> = a.iter().map(|t| t * fa).collect();
                 let b2: Vec<f64> = b.iter().map(|t| t * fb).collect();
@@ -146,6 +146,17 @@ fn gen_class(rng: &mut Lcg, cls: &str, n: usize) -> Vec<f64> {
             for i in (1..n).rev() { let j = rng.below(i as u64 + 1) as usize; rows.swap(i, j); }
             for (i, r) in rows.iter().enumerate() { a[i * n..(i + 1) * n].copy_from_slice(&t[r * n..(r + 1) * n]); }
         }
+        // genuinely ill-conditioned (not curable by row scaling): Q1 diag(sigma) Q2 with singular values graded from 1 down to 1e-10,
+        // Q1, Q2 products of random plane rotations
+        "svd-graded" => {
+            for i in 0..n { a[i * n + i] = 10f64.powf(-10.0 * i as f64 / (n.max(2) - 1) as f64); }
+            for p in 0..n { for q in (p + 1)..n {
+                let (s1, c1) = (randn(rng) * 2.0).sin_cos();
+                for j in 0..n { let (u, w) = (a[p * n + j], a[q * n + j]); a[p * n + j] = c1 * u - s1 * w; a[q * n + j] = s1 * u + c1 * w; }
+                let (s2, c2) = (randn(rng) * 2.0).sin_cos();
+                for i in 0..n { let (u, w) = (a[i * n + p], a[i * n + q]); a[i * n + p] = c2 * u - s2 * w; a[i * n + q] = s2 * u + c2 * w; }
+            } }
+        }
         _ => { // graded: D1 * dense * D2 with condition up to 1e10
             let d: Vec<f64> = (0..n).map(|i| 10f64.powf(-10.0 * i as f64 / (n.max(2) - 1) as f64)).collect();
             for i in 0..n { for j in 0..n { a[i * n + j] = randn(rng) * d[i] + if i == j { d[i] * 4.0 } else { 0.0 }; } }
@@ -193,7 +204,7 @@ pub fn record(seed: u64, nev: usize, out: &str) {
             }
         }
     }
-    let classes = ["dense", "spd", "sym-indef-posdiag", "diagdom", "perm-scaled-triangular", "graded", "dense-scaled-tiny", "dense-scaled-huge", "tiny-nonsymmetric-posdiag", "pivot-trap"];
+    let classes = ["dense", "spd", "sym-indef-posdiag", "diagdom", "perm-scaled-triangular", "graded", "dense-scaled-tiny", "dense-scaled-huge", "tiny-nonsymmetric-posdiag", "pivot-trap", "svd-graded"];
     for e in 0..nev {
         let cls = classes[e % classes.len()];
         let n = rng.range(1, 32) as usize;
@@ -209,6 +220,20 @@ pub fn record(seed: u64, nev: usize, out: &str) {
         for (name, got) in inverse_points(&a, n) {
             let (fin, res) = match &got { Some(g) => (g.iter().all(|v| v.is_finite()), scaled_residual(&a, g, &ident, n, n)), None => (false, -1) };
             t.emit(json!({"kind": "obs", "entry": name, "cls": cls, "n": n, "k": n, "out": if got.is_some() { "ok" } else { "panic" }, "finite": fin, "resid": res}));
+        }
+    }
+    // more right-hand sides than unknowns (orders 1..5, up to 6 columns), right-hand sides planted from a solution of order one:
+    // on an ill-conditioned matrix "multiply by the inverse" is then visibly not backward stable, elimination is
+    for e in 0..nev {
+        let cls = ["svd-graded", "dense", "perm-scaled-triangular", "graded", "spd", "svd-graded"][e % 6];
+        let n = rng.range(1, 5) as usize;
+        let k = rng.range(n as i64 + 1, 6.max(n as i64 + 1)) as usize;
+        let a = gen_class(&mut rng, cls, n);
+        let x0: Vec<f64> = (0..n * k).map(|_| randn(&mut rng)).collect();
+        let b = matmul(&a, &x0, n, n, false, false);
+        for (name, got) in entry_points(&a, &b, n, k) {
+            let (fin, res) = match &got { Some(g) => (g.iter().all(|v| v.is_finite()), scaled_residual(&a, g, &b, n, k)), None => (false, -1) };
+            t.emit(json!({"kind": "obs", "entry": name, "cls": format!("{} wide-rhs", cls), "n": n, "k": k, "out": if got.is_some() { "ok" } else { "panic" }, "finite": fin, "resid": res}));
         }
     }
     let _ = Value::Null;
